@@ -555,6 +555,7 @@ void XSAXMLScanner::scanReset(const InputSource& src)
     fStandalone = false;
     fErrorCount = 0;
     fHasNoDTD = true;
+    fXMLVersion = XMLReader::XMLV1_0;
     fSeeXsi = false;
     fDoNamespaces = true;
     fDoSchema = true;
